@@ -5,10 +5,18 @@
   registered pointer slot replaced by the (buffer, offset) it denotes, plus the relocation list.
   All statements hold for every arena satisfying the protocol `WF`, every buffer, every capacity
   and every address the allocator may return (`Fresh`).
+
+  Main result (`run_abs`, by refinement `exec_refines` / `run_refines`): the arena API refines an
+  address-free abstract machine (`astep` / `arun`, Spec/Arena.lean: byte lists + registered slots holding
+  references).  For every sequence of client operations inside the protocol (`OpsOK`, decidable), every
+  initial size, capacity, base address, always-move setting and admissible realloc schedule, the concrete
+  run produces the observations and the abstract content the abstract run prescribes.
 -/
 import YaraModel.Lemmas.ArenaExample
 import YaraModel.Lemmas.ArenaGrow
 import YaraModel.Lemmas.ArenaSeq
+import YaraModel.Lemmas.ArenaExec
+import YaraModel.Lemmas.ArenaFlags
 namespace YaraModel.Arena
 open YaraModel.Gen.ArenaLayout
 
@@ -45,15 +53,11 @@ theorem alloc_abs (cfg : Cfg) (nb : Nat) {a : Arena} (h : WF a) (hinit : 0 < a.i
   let ⟨h1, h2, h3, _⟩ := allocMem_spec cfg nb h hinit hres hfresh hsz
   ⟨h1, h2, h3⟩
 
-/-- **Any allocation sequence, any initial capacity, any move schedule** (partial: the sequence
-    consists of allocations — write_data / zeroed memory / the memory of a struct — into an arena that
-    may already hold arbitrarily many registered pointers; operations that register new slots or
-    store pointers are not part of the sequence).  Two runs of the same requests, started from arenas
-    with the same abstract content but different initial sizes, capacities, addresses, hook settings
-    and allocator answers, end in arenas with the same abstract content, hence (`save_eq_of_abs_eq`)
-    the same saved bytes.
-    Full statement (not proved): the same for sequences of all `Op`s (`run`). -/
-theorem alloc_seq_abs_partial (cfg₁ cfg₂ : Cfg) (reqs : List Req) :
+/-- **Allocation-only sequences** (special case of `run_abs` below, kept because its admissibility predicate
+    and request type are the simplest to read): two runs of the same allocation requests — write_data / zeroed
+    memory / the memory of a struct — started from arenas with the same abstract content but different initial
+    sizes, capacities, addresses, hook settings and allocator answers end in arenas with the same abstract content. -/
+theorem alloc_seq_abs (cfg₁ cfg₂ : Cfg) (reqs : List Req) :
     ∀ (bases₁ bases₂ : List Nat) (a₁ a₂ a₁' a₂' : Arena), WF a₁ → WF a₂ → 0 < a₁.init → 0 < a₂.init → abs a₁ = abs a₂ →
       Admissible cfg₁ bases₁ a₁ reqs → Admissible cfg₂ bases₂ a₂ reqs →
       runAllocs cfg₁ bases₁ a₁ reqs = .ok a₁' → runAllocs cfg₂ bases₂ a₂ reqs = .ok a₂' →
@@ -130,5 +134,126 @@ theorem grow_save {a : Arena} (h : WF a) {b newBase nc : Nat} (hb : b < a.bufs.l
     (hf : Fresh a b newBase nc) (zero : Bool) :
     save (growBuf a b newBase nc zero) = save a :=
   save_eq_of_abs_eq (grow_abs h hb hf zero)
+
+/-- **Refinement, one operation.** For every client operation `op` (allocate raw / zeroed / a struct with
+    relocatable fields, make_ptr_relocatable, store a pointer obtained from ref_to_ptr into a registered slot,
+    write-and-register a pointer, register-and-fill a slot that held anything, memcpy into allocated bytes, read a
+    slot back through ptr_to_ref, ref_to_ptr followed by ptr_to_ref) that the abstract machine accepts on the abstract content of `a` (`astep (abs a) op`
+    is defined: the operation is inside the protocol), for every configuration — always-move hook, initial size
+    `a.init`, capacities and base addresses of `a`, allocator answer `nb` admissible *if looked at* — the real
+    operation succeeds with exactly the observation `o` the abstract machine prescribes, keeps the protocol `WF`
+    (no stale pointer) and yields an arena whose abstract content is the abstract machine's; the only other
+    outcome is ERROR_INSUFFICIENT_MEMORY (a buffer would exceed its maximum size — which does depend on the
+    initial size).  No assert of arena.c fires, nothing is read or written out of bounds. -/
+theorem exec_refines (cfg : Cfg) (nb : Nat) {a : Arena} (h : WF a) (hinit : 0 < a.init) {op : Op} {x' : AArena} {o : Out}
+    (hspec : astep (abs a) op = some (x', o)) (hfresh : StepFresh cfg nb a op) :
+    (∃ a', exec cfg nb a op = .ok (a', o) ∧ WF a' ∧ a'.init = a.init ∧ abs a' = x') ∨
+      exec cfg nb a op = .error .insufficientMemory :=
+  exec_sim cfg nb h hinit hspec hfresh
+
+/-- **Refinement, any sequence.** By induction over the operation list: a run of the real arena under any
+    configuration and any admissible realloc schedule (`AdmRun`) realises the run of the abstract machine — same
+    observations step by step, abstract content of the final arena = final abstract arena — or stops with
+    ERROR_INSUFFICIENT_MEMORY. -/
+theorem run_refines (cfg : Cfg) (ops : List Op) (bases : List Nat) {a : Arena} (h : WF a) (hinit : 0 < a.init)
+    {x' : AArena} {outs : List Out} (hspec : arun (abs a) ops = some (x', outs)) (hadm : AdmRun cfg bases a ops) :
+    (∃ a', runOut cfg bases a ops = .ok (a', outs) ∧ WF a' ∧ abs a' = x') ∨
+      runOut cfg bases a ops = .error .insufficientMemory :=
+  runOut_sim cfg ops bases a x' outs h hinit hspec hadm
+
+/-- **Compiled rules do not depend on how internal storage grew** (full statement).  Two runs of the same
+    sequence of arena operations obeying the protocol (`OpsOK`, a decidable predicate of the sequence and the
+    abstract content it starts from), started from arenas with the same abstract content but with different
+    initial buffer sizes, capacities, base addresses, always-move settings (`cfg₁`, `cfg₂`) and allocator answers
+    (`bases₁`, `bases₂`: any admissible realloc schedules) produce the same observations at every step (the
+    references returned by allocations, the results of pointer → reference queries) and end in arenas with the
+    same abstract content — hence byte-identical saved images — in which the protocol still holds. -/
+theorem run_abs (ops : List Op) (cfg₁ cfg₂ : Cfg) (bases₁ bases₂ : List Nat) {a₁ a₂ a₁' a₂' : Arena} {outs₁ outs₂ : List Out}
+    (h₁ : WF a₁) (h₂ : WF a₂) (hi₁ : 0 < a₁.init) (hi₂ : 0 < a₂.init) (habs : abs a₁ = abs a₂)
+    (hok : OpsOK (abs a₁) ops = true)
+    (had₁ : AdmRun cfg₁ bases₁ a₁ ops) (had₂ : AdmRun cfg₂ bases₂ a₂ ops)
+    (hr₁ : runOut cfg₁ bases₁ a₁ ops = .ok (a₁', outs₁)) (hr₂ : runOut cfg₂ bases₂ a₂ ops = .ok (a₂', outs₂)) :
+    outs₁ = outs₂ ∧ abs a₁' = abs a₂' ∧ save a₁' = save a₂' ∧ WF a₁' ∧ WF a₂' := by
+  unfold OpsOK at hok
+  cases hspec : arun (abs a₁) ops with
+  | none => rw [hspec] at hok; cases hok
+  | some p =>
+    obtain ⟨x', outs⟩ := p
+    have hspec₂ : arun (abs a₂) ops = some (x', outs) := by rw [← habs]; exact hspec
+    rcases run_refines cfg₁ ops bases₁ h₁ hi₁ hspec had₁ with ⟨b₁, e₁, w₁, ab₁⟩ | e₁
+    · rcases run_refines cfg₂ ops bases₂ h₂ hi₂ hspec₂ had₂ with ⟨b₂, e₂, w₂, ab₂⟩ | e₂
+      · rw [e₁] at hr₁; rw [e₂] at hr₂
+        simp only [Except.ok.injEq, Prod.mk.injEq] at hr₁ hr₂
+        obtain ⟨rfl, rfl⟩ := hr₁
+        obtain ⟨rfl, rfl⟩ := hr₂
+        have habs' : abs b₁ = abs b₂ := by rw [ab₁, ab₂]
+        exact ⟨rfl, habs', save_eq_of_abs_eq habs', w₁, w₂⟩
+      · rw [e₂] at hr₂; cases hr₂
+    · rw [e₁] at hr₁; cases hr₁
+
+/-- … in particular from creation: `yr_arena_create(n, init₁)` and `yr_arena_create(n, init₂)` followed by the same
+    protocol-obeying operations give the same observations and the same saved image, whatever the two initial
+    buffer sizes, hook settings and allocator schedules. -/
+theorem create_run_abs (n : Nat) (hn : n ≤ maxBuffers) (ops : List Op) (hok : OpsOK (aCreate n) ops = true)
+    (cfg₁ cfg₂ : Cfg) (init₁ init₂ : Nat) (hi₁ : 0 < init₁) (hi₂ : 0 < init₂) (bases₁ bases₂ : List Nat)
+    {a₁' a₂' : Arena} {outs₁ outs₂ : List Out}
+    (had₁ : AdmRun cfg₁ bases₁ (create n init₁) ops) (had₂ : AdmRun cfg₂ bases₂ (create n init₂) ops)
+    (hr₁ : runOut cfg₁ bases₁ (create n init₁) ops = .ok (a₁', outs₁))
+    (hr₂ : runOut cfg₂ bases₂ (create n init₂) ops = .ok (a₂', outs₂)) :
+    outs₁ = outs₂ ∧ abs a₁' = abs a₂' ∧ save a₁' = save a₂' ∧ WF a₁' ∧ WF a₂' :=
+  run_abs ops cfg₁ cfg₂ bases₁ bases₂ (wf_create init₁ hn) (wf_create init₂ hn) hi₁ hi₂
+    (by rw [abs_create, abs_create]) (by rw [abs_create]; exact hok) had₁ had₂ hr₁ hr₂
+
+/-- the hypotheses are satisfiable by a non-trivial session (`exOps`, Lemmas/ArenaExample.lean): 17 operations of
+    every kind on two buffers; a pointer is stored in a registered slot, then both the buffer it points into and
+    the buffer holding the slot are forced to grow before the slot is read back.  Run 1: initial size 1, hook off,
+    ascending addresses (buffer 0 is reallocated 3 times, ends with capacity 256); run 2: initial size 64,
+    always-move on, descending addresses (every allocation moves its buffer, final capacity 224).  The sequence
+    obeys the protocol, both schedules are admissible, both runs succeed — so the theorem applies, and the
+    read-backs return the references stored (1.2 and 0.20) although every address changed in between. -/
+example : ∃ a₁' a₂' outs, runOut {} exBases₁ (create 2 1) exOps = .ok (a₁', outs) ∧
+    runOut { alwaysMove := true } exBases₂ (create 2 64) exOps = .ok (a₂', outs) ∧
+    save a₁' = save a₂' ∧ outs[5]? = some (.found (some ⟨1, 2⟩)) ∧ outs[8]? = some (.found (some ⟨0, 20⟩)) ∧
+    (a₁'.bufAt 0).base ≠ (a₂'.bufAt 0).base ∧ (a₁'.bufAt 0).cap ≠ (a₂'.bufAt 0).cap := by
+  have hok : OpsOK (aCreate 2) exOps = true := by decide +kernel
+  have had₁ : AdmRun {} exBases₁ (create 2 1) exOps := admRun_of_check _ _ _ _ (by decide +kernel)
+  have had₂ : AdmRun { alwaysMove := true } exBases₂ (create 2 64) exOps := admRun_of_check _ _ _ _ (by decide +kernel)
+  have c₁ : (match runOut {} exBases₁ (create 2 1) exOps with
+      | .ok (a, o) => decide (o[5]? = some (.found (some ⟨1, 2⟩)) ∧ o[8]? = some (.found (some ⟨0, 20⟩)) ∧
+          (a.bufAt 0).base = 32768 ∧ (a.bufAt 0).cap = 256)
+      | .error _ => false) = true := by decide +kernel
+  have c₂ : (match runOut { alwaysMove := true } exBases₂ (create 2 64) exOps with
+      | .ok (a, _) => decide ((a.bufAt 0).base = 13631488 ∧ (a.bufAt 0).cap = 224)
+      | .error _ => false) = true := by decide +kernel
+  cases hr₁ : runOut {} exBases₁ (create 2 1) exOps with
+  | error e => rw [hr₁] at c₁; cases c₁
+  | ok p₁ =>
+    cases hr₂ : runOut { alwaysMove := true } exBases₂ (create 2 64) exOps with
+    | error e => rw [hr₂] at c₂; cases c₂
+    | ok p₂ =>
+      obtain ⟨a₁', o₁⟩ := p₁
+      obtain ⟨a₂', o₂⟩ := p₂
+      rw [hr₁] at c₁; rw [hr₂] at c₂
+      simp only [decide_eq_true_eq] at c₁ c₂
+      have ⟨ho, _, hs, _, _⟩ := create_run_abs 2 (by decide) exOps hok {} { alwaysMove := true } 1 64 (by decide) (by decide)
+        exBases₁ exBases₂ had₁ had₂ hr₁ hr₂
+      subst ho
+      exact ⟨a₁', a₂', o₁, rfl, rfl, hs, c₁.1, c₁.2.1, by rw [c₁.2.2.1, c₂.1]; decide, by rw [c₁.2.2.2, c₂.2]; decide⟩
+
+/-- **Nothing unspecified.** The abstract content ignores one thing the model tracks: whether a zeroed allocation was
+    served from spare capacity that was never cleared (`unspec`; arena.c clears only on the growth path — which
+    capacity-dependent runs reach at different moments).  If the operation list never sends a zeroed allocation
+    (allocate_zeroed_memory / allocate_struct) to a buffer that earlier received a raw one (write_data) — `KindsOK`,
+    decidable, a property of the list alone; the compiler's buffers are each of one kind — then, whatever the
+    configuration and the allocator, the flag is never raised: every byte of the final arena is the one `abs` shows. -/
+theorem run_defined (cfg : Cfg) (bases : List Nat) (ops : List Op) {a a' : Arena} {raws : List Nat} {outs : List Out}
+    (hd : ∀ j, (a.bufAt j).dirty = true → j ∈ raws) (hu : a.unspec = false) (hk : KindsOK raws ops = true)
+    (hr : runOut cfg bases a ops = .ok (a', outs)) : a'.unspec = false :=
+  runOut_unspec cfg ops bases a raws a' outs hd hu hk hr
+
+/-- … in particular from `yr_arena_create`; the example session sends zeroed allocations to buffer 0 and raw ones to buffer 1 -/
+example (cfg : Cfg) (init : Nat) (bases : List Nat) {a' : Arena} {outs : List Out}
+    (hr : runOut cfg bases (create 2 init) exOps = .ok (a', outs)) : a'.unspec = false :=
+  run_defined cfg bases exOps (dirtyIn_create 2 init) rfl (by decide) hr
 
 end YaraModel.Arena
